@@ -6,6 +6,10 @@ ALL = ["C%02d" % i for i in range(1, 20)]
 
 # id -> (technique, level text, level note, design ref)
 CLAIMED = {
+ "C13": ("rapid property-based testing: generated preambles vs. an independent cartesian expander and the reference parser's own variable expansion (differential)",
+         "Generated search over preamble layouts (definitions in any order, appends anywhere after the definition, interleaved comment/abi/include/alias lines, references nested to any depth, repeated and adjacent references): every variable and attachment must equal an independent 20-line cartesian expander, and on every 4th case apparmor_parser's -D expanded-variables output; the non-variable preamble rules must survive unchanged and in order; injected faults (undefined reference, self-reference, second '=') must give an error, not a panic, and be rejected by the reference too.",
+         "Trusts apparmor_parser 3.0.8 as the reference expansion, the model expander in c13_test.go, set comparison after collapsing '//'. Indirect reference cycles are not generated (not listed by the statement; they would overflow the stack of the test process). A reference-parser hang (seen on ~0.1% of valid inputs) is counted as inconclusive.",
+         "DESIGN.md §2 C13"),
  "C09": ("rapid property-based testing: print/parse round trip on generated rule structs, alternative spellings, formatted blocks and profile files",
          "Generated search over four domains: (A) rule structs of every kind with composed AARE values and comments, (B) the same rules in alternative valid spellings, parsed first, (C) blocks after Merge+Sort+Format, (D) profile files (preamble + header). Oracle is the round trip itself: parse(print(r)) == r field by field and print(parse(print(r))) == print(r) byte for byte. Tens of thousands of cases per quick run, millions thorough.",
          "Trusts the reflection bridge and the stated generator domain: Unix attr/opt (never printed, rejected by AppArmor), 'allow' == no qualifier, annotation flags compared through the rendered comment text, comments not ending in '}', a network rule with type packet and no family (cannot be written down).",
